@@ -104,6 +104,15 @@ func (x *Exec) errUEOF() Iface {
 }
 
 func init() {
+	intrinsics["internal/bytealg.MakeNoZero"] = func(x *Exec, a []Value) Value {
+		n := x.allocLen(a[0].(*Term))
+		out := make([]Value, n)
+		for i := range out {
+			out[i] = x.c.st.Const(8, 0)
+		}
+		return Slice{a: out}
+	}
+	intrinsics["internal/abi.NoEscape"] = func(x *Exec, a []Value) Value { return a[0] }
 	intrinsics["errors.New"] = func(x *Exec, a []Value) Value { return x.newErr(a[0].(Str), "") }
 	intrinsics["error.Error"] = func(x *Exec, a []Value) Value { return a[0].(*ErrObj).msg }
 
@@ -719,7 +728,16 @@ func (x *Exec) sprintf(format Str, args []Value) Str {
 				body = pad
 			}
 		default:
-			x.engineErr("fmt verb %%%c not modelled", verb)
+			// a verb that does not apply: fmt prints "%!c(type=value)"
+			body = append(x.cstr("%!").b, st.Const(8, uint64(verb)))
+			if ifc, ok := arg.(Iface); ok && ifc.t != nil {
+				body = append(body, x.cstr("("+ifc.t.String()+"=").b...)
+				body = append(body, x.fmtArg(arg, 'v')...)
+				body = append(body, st.Const(8, ')'))
+			} else {
+				body = append(body, x.cstr("(<nil>)").b...)
+			}
+			width = 0
 		}
 		if width > len(body) {
 			padn := width - len(body)
